@@ -11,6 +11,7 @@ constant prunes the infeasible edges (this is how drop flags are followed into c
 This is a value-numbering style analysis: nothing is executed, lengths stay symbols.
 """
 
+import os
 from .poly import norm_fact, Poly, fact_cmp, NEG, prove, refute
 from .tys import TyEnv, tstr, pointee, adt_args, is_ga, strip_wrappers
 
@@ -69,6 +70,9 @@ class CallSite:
         self.ret = None
         self.at = term.get("at")
         self.exp = term.get("exp")
+
+
+_SPENT = [0.0]  # seconds spent in fixpoint iterations by this process
 
 
 class Analysis:
@@ -1128,6 +1132,11 @@ class Analysis:
         elif k == "assert":
             c = self.operand(st, t["cond"])
             s2 = st.copy()
+            if record:
+                # a compiler-inserted check (overflow, division by zero, bounds): recorded with the facts under which it is evaluated and the
+                # facts under which it FAILS, so a rule can ask whether the panic is reachable
+                fail = frozenset(st.facts) | (frozenset(self.cond_facts(c[1], not t["expected"])) if c[0] == "B" else frozenset())
+                self.__dict__.setdefault("asserts", []).append({"bb": bb, "msg": t.get("msg") or t.get("s") or "", "cond": c, "facts": st.facts, "fail_facts": fail, "at": t.get("at"), "cleanup": blk["cleanup"]})
             if c[0] == "B":
                 s2.facts = s2.facts | frozenset(self.cond_facts(c[1], t["expected"]))
             out.append((t["target"], s2))
@@ -1416,10 +1425,26 @@ class Analysis:
         rpo = self._rpo()
         work = [0]
         iters = 0
+        import time as _time
+        t_start = _time.time()
+        budget = float(os.environ.get("GAV_ANALYSIS_BUDGET", "25"))
+        # a process-wide allowance on top: once the analyses of one check have used it up, further bodies are not analysed at all (they would
+        # be the pathological ones) - the check then ends with UNKNOWN verdicts instead of running for an unbounded time
+        total = float(os.environ.get("GAV_TOTAL_BUDGET", "150"))
+        if _SPENT[0] > total:
+            self.unknown.append(("fixpoint", None, "the check's analysis time allowance (%ds) is used up" % total))
+            work = []
+        from . import poly as _poly
+        _poly.DEADLINE[0] = t_start + budget   # proofs attempted inside joins give up at once after the budget: the iteration then ends quickly
+        exp0 = _poly.EXPIRED[0]
         while work:
             iters += 1
             if iters > 6000:
                 self.unknown.append(("fixpoint", None, "iteration bound"))
+                break
+            if _time.time() - t_start > budget:
+                # a body whose fixpoint does not settle within the budget is NOT analysed: every rule that depends on it must say so
+                self.unknown.append(("fixpoint", None, "time bound (%ds) after %d iterations" % (budget, iters)))
                 break
             work.sort(key=lambda b_: rpo.get(b_, 1 << 30))
             bb = work.pop(0)
@@ -1468,6 +1493,10 @@ class Analysis:
                     self.block_in[succ] = acc
                     if succ not in work:
                         work.append(succ)
+        _SPENT[0] += _time.time() - t_start
+        _poly.DEADLINE[0] = None
+        if _poly.EXPIRED[0] != exp0 and not any(u and u[0] == "fixpoint" for u in self.unknown):
+            self.unknown.append(("fixpoint", None, "time bound (%ds): proofs inside merges were cut short" % budget))
         # recording pass
         self.edges = {}
         self.edge_facts = {}  # (pred, succ) -> list of fact sets, one per CFG edge
